@@ -2070,6 +2070,8 @@ def _replace_node(root, old, new):
 def _pure(e):
     if isinstance(e, (ast.List, ast.Dict, ast.Set)):
         return False  # a new mutable object: the variable names its identity
+    if isinstance(e, ast.Lambda) and _is_const_expr(e):
+        return True  # a function without free variables is a constant
     for n in ast.walk(e):
         if isinstance(n, ast.Call):
             if _is_compile(n) and all(isinstance(a, ast.Constant) for a in n.args[:1]):
@@ -2086,6 +2088,8 @@ def _pure(e):
 
 def _reads_heap(e):
     if _is_compile(e) and all(isinstance(a, ast.Constant) for a in e.args):
+        return False
+    if isinstance(e, ast.Lambda) and _is_const_expr(e):
         return False
     todo = [e]
     nodes = []
@@ -2662,10 +2666,25 @@ def _bool_simplify(e):
     if isinstance(e, ast.Call) and isinstance(e.func, ast.Name) and e.func.id == "bool" and len(e.args) == 1 and not e.keywords:
         return _bool_simplify(e.args[0])  # a test asks for the truth value anyway
     if isinstance(e, ast.UnaryOp) and isinstance(e.op, ast.Not):
-        return ast.copy_location(ast.UnaryOp(op=ast.Not(), operand=_bool_simplify(e.operand)), e)
+        inner = _bool_simplify(e.operand)
+        if isinstance(inner, ast.Constant) and isinstance(inner.value, bool):
+            return ast.copy_location(ast.Constant(value=not inner.value), e)
+        return ast.copy_location(ast.UnaryOp(op=ast.Not(), operand=inner), e)
     if isinstance(e, ast.BoolOp):
         e.values = [_bool_simplify(v) for v in e.values]
-        return _flatten_bool(e)
+        e = _flatten_bool(e)
+        if isinstance(e, ast.BoolOp):
+            # in a test: `A or True` is True, `A and False` is False (A without effect); `A or False` is A, `A and True` is A
+            absorbing = isinstance(e.op, ast.Or)
+            consts = [v for v in e.values if isinstance(v, ast.Constant) and isinstance(v.value, bool)]
+            rest = [v for v in e.values if v not in consts]
+            if consts and all(isinstance(v, (ast.Name, ast.Attribute, ast.Constant)) or (isinstance(v, ast.UnaryOp) and isinstance(v.operand, (ast.Name, ast.Attribute))) for v in rest):
+                if any(c.value is absorbing for c in consts):
+                    return ast.copy_location(ast.Constant(value=absorbing), e)
+                if not rest:
+                    return ast.copy_location(ast.Constant(value=not absorbing), e)
+                e = rest[0] if len(rest) == 1 else ast.copy_location(ast.BoolOp(op=e.op, values=rest), e)
+        return e
     return e
 
 
